@@ -279,8 +279,11 @@ def get_ast_term(t):
 
     def get_priority_pair(t):
         """Obtain the binding priority of the top-most operation of t."""
-        if (t.is_number() and isinstance(t.dest_number(), int) and t.dest_number() >= 0) or \
+        if t.is_zero() or t.is_one() or \
+           (t.is_comb('of_nat', 1) and t.arg.is_binary() and t.arg.dest_binary() >= 2) or \
            list.is_literal_list(t):
+            # Exactly the terms that are printed as a single numeral (or list)
+            # below; of_nat 0 and of_nat 1 are printed as applications.
             return 100, ATOM  # Nat atom case
         elif t.is_comb():
             op_data = operator.get_info_for_fun(t.head)
